@@ -119,7 +119,9 @@ impl Col {
         if self.st == BIT {
             return (1usize << self.row_size().min(20)) >= n;
         }
-        true
+        // the fill pattern is 16*i+j+1 (xor a constant in wide columns): distinct rows while it does not wrap
+        let w = vals::st_bits(&self.st);
+        w >= 64 || ((n * 16 + self.row_size() + 1) as u128) < (1u128 << w)
     }
 }
 
